@@ -557,8 +557,13 @@ def suite_ple(g, n, big=False):
         elif op in ('ple', 'pluq'):
             g.add(op, '%s %s %s %d' % (M, P, Q, rng.choice([0, 0, 64, 128, 256])), r=r, c=c)
         else:
-            # _mzd_ple_russian needs an owned, non-windowed copy (that is how _mzd_ple calls it)
-            M = g.mat(r, c, rows, place='o')
+            # the base case called directly, on owned matrices and on windows (any word offset); beyond 512 columns the
+            # split-block multi-table path (`_mzd_ple_a10` / `_mzd_ple_a11_*`) is taken
+            if big and rng.random() < 0.35:
+                r, c = rng.randint(10, 140), rng.randint(513, 1100)
+                rows = profile_matrix(g, r, c)
+                M = g.mat(r, c, rows)
+                P, Q = junk_perm(g, r), junk_perm(g, c)
             g.add(op, '%s %s %s %d' % (M, P, Q, rng.randint(0, 9)), r=r, c=c)   # kk = 7k <= 64 is asserted
 
 
@@ -729,7 +734,7 @@ def suite_ple_recursive(g, n, ops=('ple', 'pluq', 'echelonize_pluq', 'kernel', '
     rng = g.rng
     for _ in range(n):
         op = rng.choice(list(ops))
-        c = rng.choice([1100, 1300, 1800, 2100])
+        c = rng.choice([1100, 1300, 1800, 2100, 1150, 1280, 1500, 1990])
         w = (c + 63) // 64
         r = 8192 // w + rng.randint(2, 40)
         n1 = (((c - 1) // 64 + 1) >> 1) * 64
@@ -742,6 +747,12 @@ def suite_ple_recursive(g, n, ops=('ple', 'pluq', 'echelonize_pluq', 'kernel', '
             r2 = c - n1 - rng.randint(0, 14)
             r1 = rng.choice([0, 1, 30, 64, 100])
             r = max(r, r1 + r2 + rng.randint(3, 40))
+        elif rng.random() < 0.25:
+            # nearly full rank with a slightly deficient left half: the last partial chunk of the compressed L lies in the
+            # last word of the row (owned matrices of even width have no padding word behind it)
+            r1 = n1 - rng.randint(1, 40)
+            r2 = c - n1 - rng.randint(0, 10)
+            r = r1 + r2 + rng.randint(3, 40)
         r2 = max(0, min(r2, c - n1, r - r1))
         left = sorted(rng.sample(range(n1), r1)) if r1 else []
         right = sorted(rng.sample(range(n1, c), r2)) if r2 else []
@@ -928,9 +939,13 @@ def suite_io(g, n):
             elif kind == 'positive_first':
                 toks[4] = abs(toks[4])
             elif kind == 'too_big':
-                toks[rng.randint(4, len(toks) - 1)] = nn + rng.choice([1, 1, 2, 64, 1000])
+                # also magnitudes whose low 32 bits look like a valid index (the reader scans a C long)
+                k = rng.randint(1, nn)
+                toks[rng.randint(4, len(toks) - 1)] = rng.choice([nn + 1, nn + 1, nn + 2, nn + 64, nn + 1000, 2 ** 31 + k, 2 ** 32 + k,
+                                                                  2 ** 33 + k, 2 ** 40 + k, 2 ** 32 + nn + 1, 2 ** 31 - 1])
             elif kind == 'neg_big':
-                toks[rng.randint(4, len(toks) - 1)] = -(nn + rng.choice([1, 2, 64]))
+                k = rng.randint(1, nn)
+                toks[rng.randint(4, len(toks) - 1)] = -rng.choice([nn + 1, nn + 2, nn + 64, 2 ** 32 - k, 2 ** 32 + k, 2 ** 31 + k, 2 ** 40 + k])
             elif kind == 'too_many_rows':
                 toks += [-1] * (m + 1)
             elif kind == 'modulus':
